@@ -21,12 +21,15 @@ def pick(rnd, i):
     depth = rnd.choice([2, 4, 5, 8])
     rp = rnd.randint(1, 3)
     wp = 1 if mt == "MultiRead" else rnd.randint(1, min(3, depth))
+    struct = gran is None and mt == "Memory" and width % 2 == 0 and rnd.random() < 0.3
     case = {"kind": f"MemoryBank[{mt}]", "transparent": tr, "read_on_resp": ror, "granularity": gran, "width": width, "depth": depth,
-            "read_ports": rp, "write_ports": wp}
+            "read_ports": rp, "write_ports": wp, "struct_shape": struct}
 
     def make(r):
-        dut = MemoryBank(shape=width, depth=depth, granularity=gran, transparent=tr, read_on_resp=ror, read_ports=rp, write_ports=wp, memory_type=MEMS[mt])
-        return dut, MemBankM(depth, width, rp, wp, tr, ror, gran)
+        from amaranth.lib.data import StructLayout
+        shape = StructLayout({"lo": width // 2, "hi": width // 2}) if struct else width
+        dut = MemoryBank(shape=shape, depth=depth, granularity=gran, transparent=tr, read_on_resp=ror, read_ports=rp, write_ports=wp, memory_type=MEMS[mt])
+        return dut, MemBankM(depth, width, rp, wp, tr, ror, gran, struct=struct)
 
     return case, make, ""
 
